@@ -7,6 +7,7 @@ import (
 	"golang.org/x/tools/go/ssa"
 	"os"
 	"path/filepath"
+	"regexp"
 	"sort"
 	"strings"
 	"time"
@@ -218,6 +219,10 @@ func main() {
 				sweepCount++
 			}
 		}
+	}
+	// global invariants: established by the package initialiser, written nowhere else
+	if *only == "" && cmd != "sweep" {
+		results = append(results, w.verifyGlobalInvs(*prop)...)
 	}
 	for _, l := range w.lemmas {
 		if *only != "" && "lemma "+l.Name != *only {
@@ -626,4 +631,80 @@ func (w *World) uncontracted() (without, generated []string) {
 	sort.Strings(without)
 	sort.Strings(generated)
 	return
+}
+
+// verifyGlobalInvs turns every `globalinv pkg.v: P(self)` into (1) a postcondition of the
+// package initialiser pkg.init and (2) a scan showing that no other function of /repo stores to
+// the variable. Contracts then use the invariant wherever the variable is read.
+func (w *World) verifyGlobalInvs(prop string) []*FuncResult {
+	byPkg := map[string][]string{}
+	for g := range w.globalInvs {
+		i := strings.LastIndex(g, ".")
+		if i < 0 {
+			continue
+		}
+		byPkg[g[:i]] = append(byPkg[g[:i]], g)
+	}
+	var pkgs []string
+	for p := range byPkg {
+		pkgs = append(pkgs, p)
+	}
+	sort.Strings(pkgs)
+	wordSelf := regexp.MustCompile(`\bself\b`)
+	var out []*FuncResult
+	for _, pk := range pkgs {
+		sel := pk + ".init"
+		fn := w.fns[sel]
+		if fn == nil {
+			out = append(out, &FuncResult{Sel: sel, SpecErrors: []string{"globalinv: package initialiser " + sel + " not found"}})
+			continue
+		}
+		con := &Contract{Sel: sel, File: "globalinv", Loops: map[int]*LoopSpec{}, Props: []string{}}
+		gs := byPkg[pk]
+		sort.Strings(gs)
+		props := map[string]bool{}
+		for _, g := range gs {
+			cl := w.globalInvs[g]
+			name := g[strings.LastIndex(g, ".")+1:]
+			con.Ensures = append(con.Ensures, Clause{Label: "globalinv." + name, Text: wordSelf.ReplaceAllString(cl.Text, name), File: cl.File, Line: cl.Line})
+			// the invariant belongs to every property whose contracts live in that package
+			for _, c := range w.cons {
+				if !c.External && strings.HasPrefix(c.Sel, pk+".") || strings.HasPrefix(c.Sel, "("+pk+".") || strings.HasPrefix(c.Sel, "(*"+pk+".") {
+					for _, p := range c.Props {
+						props[p] = true
+					}
+				}
+			}
+		}
+		for p := range props {
+			con.Props = append(con.Props, p)
+		}
+		sort.Strings(con.Props)
+		if prop != "" && !hasProp(con.Props, prop) {
+			continue
+		}
+		w.initMode = true
+		r := w.verifyFunc(sel, con)
+		w.initMode = false
+		// (2) no other writer
+		for _, g := range gs {
+			for _, f := range w.allFns {
+				if !w.inRepo(f) || f == fn || len(f.Blocks) == 0 {
+					continue
+				}
+				for _, b := range f.Blocks {
+					for _, in := range b.Instrs {
+						if st, ok := in.(*ssa.Store); ok {
+							root, _ := rootOf(st.Addr)
+							if gl, ok := root.(*ssa.Global); ok && shortName(gl.String()) == g {
+								r.SpecErrors = append(r.SpecErrors, fmt.Sprintf("globalinv %s: %s also writes the variable (the invariant is only sound for variables written by the initialiser alone)", g, shortName(f.String())))
+							}
+						}
+					}
+				}
+			}
+		}
+		out = append(out, r)
+	}
+	return out
 }
